@@ -33,6 +33,9 @@ type Config struct {
 	Deadline     time.Time
 	Bounds       map[string]int64
 	FallbackSec  int
+	DumpDir      string
+	DumpEvery    int
+	DumpMax      int
 }
 
 type Program struct {
@@ -52,6 +55,8 @@ type Worker struct {
 	cfg    *Config
 	solver *Solver
 	fallbacks int
+	oblCount  int
+	dumped    int
 }
 
 func (w *Worker) buildPkg(p *ssa.Package) {
